@@ -548,8 +548,9 @@ func (a *lbArch) memTranslate(h *lfHandler) *lmResult {
 	}
 	g, ok := loop.Body.List[0].(*ast.IfStmt)
 	if !ok || g.Init != nil || g.Else != nil || len(g.Body.List) != 1 || nodeString(g.Body.List[0]) != "continue" ||
-		(normExpr(g.Cond) != f.execVar+"&(1<<uint("+v+"))==0" && normExpr(g.Cond) != "!laneMasked("+f.execVar+",uint("+v+"))" && normExpr(g.Cond) != "!emu.LaneMasked("+f.execVar+",uint("+v+"))") {
-		fail(loop, "first statement of the lane loop is not the EXEC guard")
+		normExpr(g.Cond) != f.execVar+"&(1<<uint("+v+"))==0" {
+		// the model of the memory loop (`C06.goMemIter`) has this guard, the one every DS / FLAT handler uses
+		fail(loop, "first statement of the lane loop is not the EXEC guard `exec&(1<<uint(i)) == 0`")
 	}
 	c.loopVar = v
 	c.immut[v] = true
